@@ -1,5 +1,6 @@
 import Tahoe.Base.DrvUtil
 import Tahoe.Immutable.Helper
+import Tahoe.Immutable.HelperClient
 /-! Driver for C44.
     `fetch CHUNK CTHEX FAULTS` — FAULTS = `-` or faults joined by `,`: `n` (none), `rI` (I-th read_encrypted
        call of the attempt fails), `e` (failure after the fetch completed).  Output: one field per attempt
@@ -8,7 +9,9 @@ import Tahoe.Immutable.Helper
     `present ACTIVE SHNUMS TOTAL` — ACTIVE ∈ 0 1, SHNUMS = `-` or numbers joined by `,`, TOTAL = number or
        `none` (no UEB).  Output `present` | `need-new` | `need-active`.
     `presentp ACTIVE ANSWERS TOTAL` — the same with ANSWERS = `-` or `server.shnum` pairs joined by `,`
-       (one per share file found). -/
+       (one per share file found).
+    `reader CHUNK PTHEX KSHEX off:len,…` — the client-side reader (EncryptAnUploadable with CHUNKSIZE = CHUNK behind a
+       RemoteEncryptedUploadable) answering a sequence of remote_read_encrypted(off, len); output hex per call (`N` = refused). -/
 open Tahoe.Drv Tahoe.Helper
 
 def parseFault (s : String) : Option Fault :=
@@ -66,6 +69,16 @@ def handle : List String → String
         | .needUpload true => "need-new"
         | .needUpload false => "need-active"
     | _, _ => "bad-op"
+  | ["reader", c, pth, ksh, rs] =>
+    let reads : Option (List (Nat × Nat)) := (rs.splitOn ",").mapM (fun e => match e.splitOn ":" with
+      | [a, b] => do pure ((← a.toNat?), (← b.toNat?))
+      | _ => none)
+    match c.toNat?, bytesOfHex pth, bytesOfHex ksh, reads with
+    | some chunk, some pt, some ks, some l =>
+      ";".intercalate ((remoteReads chunk pt ks ⟨⟨0, 0⟩, 0⟩ l).map (fun o => match o with
+        | none => "N"
+        | some b => hexOfBytes b))
+    | _, _, _, _ => "bad-op"
   | _ => "bad-op"
 
 def main : IO Unit := mainLoop handle
